@@ -273,6 +273,9 @@ def run_links(ctx, n):
         hist = corpus[i] if i < len(corpus) else gen_history(ctx.rng)
         term, exp, problems, nontrivial, removed = run_history(ctx, hist)
         ctx.case(hist, nontrivial)
+        dd = ctx.extra.setdefault("input_dimensions", {})
+        for d in (["links:history"] + (["links:root_dir-through-symlink"] if hist.get("via_symlink") else [])):
+            dd[d] = dd.get(d, 0) + 1
         ctx.count("links:cleanups", sum(1 for o in hist["ops"] if o[0] == "cleanup"))
         ctx.count("links:removed-paths", sum(len(u) for u in removed))
         for sig, what in problems:
@@ -400,6 +403,8 @@ def run_refused(ctx, n):
     for case in chosen:
         problems, recorded, unused = run_refused_cleanup(ctx, case)
         ctx.case(case, recorded)
+        dd = ctx.extra.setdefault("input_dimensions", {})
+        dd["history:refused-checkout-then-cleanup"] = dd.get("history:refused-checkout-then-cleanup", 0) + 1
         ctx.count("refused-cleanup:" + case["kind"])
         for sig, what in problems:
             ctx.oracle_fail(sig, what, case)
